@@ -8,6 +8,8 @@ def check(run):
     cov = sweep34.explore(run, sweep34.C04_KINDS)
     fcov = sweep34.explore_float(run) if hasattr(sweep34, "explore_float") else {}
     cov.update(fcov)
+    cov["evaluations"] += fcov.get("float_evaluations", 0)
+    cov["distinct_nontrivial"] += fcov.get("float_instances_with_both_outcomes", 0)
     cov["rule"] = ("instances = (integral rep T) x (factor N/D from the structured grid FG(T)) for which "
                    "coerce_in compiles (observed by compiling each alone); values = all values of 8/16-bit "
                    "reps, breakpoint-complete windows for 32/64-bit (thorough: all 2^32 values for a "
